@@ -358,14 +358,21 @@ theorem NoDisk.congr {rs : Nat} {h1 h2 : Heap} (n : NoDisk rs h1) (e : h1[rs]? =
   subst hq
   exact n q ho rfl (by rw [get?_congr (p := q) e]; exact hg)
 
+/-- a new object that only refers to the new region, is not a simulation, and if a holder has no on-disk
+storage -/
+def Fine (rc : Nat) (x : Obj) : Prop := InReg rc x ∧ x.sim? = none ∧ ∀ ho, x = .holder ho → ho.disk = none
+
 theorem HolderMade.inReg {rs rc : Nat} {newPop sim : Id} {h1 : Heap} {L : List (Var × Id)} {x : Obj}
     (m : HolderMade rc newPop sim h1 L x) (hp : newPop.reg = rc) (hs : sim.reg = rc) (hL : ∀ e ∈ L, e.2.reg = rs)
-    (nd : NoDisk rs h1) : InReg rc x := by
+    (nd : NoDisk rs h1) : Fine rc x := by
   rcases m with ⟨st, rfl⟩ | ⟨ho, mem', e, he, hg, hm, rfl⟩
-  · trivial
-  · refine ⟨hp, hs, hm, fun d hd => ?_⟩
-    rw [nd e.2 ho (hL e he) hg] at hd
-    cases hd
+  · exact ⟨trivial, rfl, fun _ e => by cases e⟩
+  · have hd0 : ho.disk = none := nd e.2 ho (hL e he) hg
+    refine ⟨⟨hp, hs, hm, fun d hd => ?_⟩, rfl, fun ho2 e2 => ?_⟩
+    · rw [hd0] at hd
+      cases hd
+    · cases e2
+      exact hd0
 
 /-- everything of `h1` except the object `c` is still there, unchanged, in `h2` -/
 def ExtX (c : Id) (h1 h2 : Heap) : Prop := ∀ q x, q ≠ c → h1.get? q = some x → h2.get? q = some x
@@ -394,7 +401,7 @@ theorem HolderPair.lift {rc rs : Nat} {newPop sim c : Id} {h1 ha hb h2 : Heap} {
 /-- a new object is fine when it only refers to the new region (which it does when no source holder
 has an on-disk storage) -/
 def Origin (rs rc : Nat) (h1 h2 : Heap) : Prop :=
-  ∀ q x, h2.get? q = some x → h1.get? q = some x ∨ (q.reg = rc ∧ h1.get? q = none ∧ (NoDisk rs h1 → InReg rc x))
+  ∀ q x, h2.get? q = some x → h1.get? q = some x ∨ (q.reg = rc ∧ h1.get? q = none ∧ (NoDisk rs h1 → Fine rc x))
 
 theorem Origin.refl (rs rc : Nat) (h : Heap) : Origin rs rc h h := fun _ _ e => Or.inl e
 
@@ -435,7 +442,7 @@ theorem PopCloned.origin {rs rc : Nat} {newSim pid pid' : Id} {h1 h2 : Heap} {ns
   · exact Or.inl h
   · refine Or.inr ⟨hr, hf, fun nd => ?_⟩
     rcases hm with ⟨rfl, rfl⟩ | hm
-    · refine ⟨hsim, ?_, ?_⟩
+    · refine ⟨⟨hsim, ?_, ?_⟩, rfl, fun _ e => by cases e⟩
       · exact a6.forall_right fun a b hp => by
           obtain ⟨_, _, _, _, _, _, _, _, _, h6, _, _⟩ := hp
           exact h6
@@ -527,7 +534,9 @@ structure SimCloned (s c : Id) (tr dbg : Bool) (h h' : Heap) : Prop where
     ∧ PopPair c.reg c so.persons h h' (0, so.persons) (0, persons')
     ∧ Rel₂ (PopPair c.reg c persons' h h') (so.pops.filter (fun e => e.1 ≠ 0)) groups'
     ∧ (NoDisk s.reg h → so.dir = none →
-        (∀ po m, h.get? so.persons = some (.pop po) → po.members = some m → False) → Closed c.reg h')
+        (∀ po m, h.get? so.persons = some (.pop po) → po.members = some m → False) →
+        ∀ i x, h'.get? ⟨c.reg, i⟩ = some x → InReg c.reg x ∧ ((⟨c.reg, i⟩ : Id) ≠ c →
+          x.sim? = none ∧ ∀ ho, x = .holder ho → ho.disk = none))
 
 theorem cloneSim_spec {s c : Id} {tr dbg : Bool} {h h' : Heap} (cl : Closed s.reg h)
     (e : cloneSim s tr dbg h = (.ok c, h')) : SimCloned s c tr dbg h h' := by
@@ -617,7 +626,7 @@ theorem cloneSim_spec {s c : Id} {tr dbg : Bool} {h h' : Heap} (cl : Closed s.re
     by_cases hqc : (⟨h.length, i⟩ : Id) = c
     · rw [hqc, g11] at hx
       cases hx
-      refine ⟨p3, ?_, r9, r4, fun d hd' => ?_⟩
+      refine ⟨⟨p3, ?_, r9, r4, fun d hd' => ?_⟩, fun hne' => absurd hqc hne'⟩
       · intro e' he'
         rcases List.mem_cons.mp he' with rfl | h'
         · exact p3
@@ -637,9 +646,11 @@ theorem cloneSim_spec {s c : Id} {tr dbg : Bool} {h h' : Heap} (cl : Closed s.re
             · rcases i3 _ _ hx with hx | ⟨hq, _⟩
               · simp [get?_def, z0] at hx
               · exact absurd hq hqc
-            · trivial
-          · exact hgood (nd.congr (ohb _ hne).symm)
-        · exact hgood (nd.congr (ohd _ hne).symm)
-      · trivial
+            · exact ⟨trivial, fun _ => ⟨rfl, fun _ e => by cases e⟩⟩
+          · have g := hgood (nd.congr (ohb _ hne).symm)
+            exact ⟨g.1, fun _ => g.2⟩
+        · have g := hgood (nd.congr (ohd _ hne).symm)
+          exact ⟨g.1, fun _ => g.2⟩
+      · exact ⟨trivial, fun _ => ⟨rfl, fun _ e => by cases e⟩⟩
 
 end OFCore.Heap
